@@ -54,13 +54,39 @@ inductive Code where
   | ok | alreadyExists | invalidArgument | notFound | failedPrecondition | aborted
   deriving DecidableEq
 
-/-- update mask: none, or a subset of the scalar paths body / media_type -/
+/-- the part of an update mask that goes through the audience: nothing, the path `audience`, or the
+path `audience.name` -/
+inductive AudMask where
+  | none | whole | name
+
+/-- update mask: none, or a subset of the paths body / media_type plus an audience path -/
 inductive UMask where
   | none
-  | fields (body mediaType : Bool)
+  | fields (body mediaType : Bool) (aud : AudMask)
+
+/-- `FieldUpdater.Merge` on the audience (C05's field-mask merge): `audience` merges the request's
+audience into the stored one (absent ⇒ cleared; an empty name keeps the stored name); `audience.name`
+takes the request's name, creating the audience when the request has one. -/
+def mergeAudience (a : AudMask) (cur src : Option Audience) : Option Audience :=
+  match a with
+  | .none => cur
+  | .whole =>
+    match src with
+    | none => none
+    | some s =>
+      let c : Audience := cur.getD ⟨"", 0, "", none⟩
+      some { c with name := if s.name ≠ "" then s.name else c.name,
+                    receipt := if s.receipt ≠ 0 then s.receipt else c.receipt,
+                    reason := if s.reason ≠ "" then s.reason else c.reason }
+  | .name =>
+    match src, cur with
+    | none, none => none
+    | none, some c => some { c with name := "" }
+    | some s, _ => some { (cur.getD ⟨"", 0, "", none⟩) with name := s.name }
 
 inductive Op where
   | create (p : Pub)
+  | createGen (p : Pub) (g : String)   -- create with an empty id; `g` is the id the collection generated
   | update (p : Pub) (mask : UMask) (version : String)
   | delete (id version : String) (allowMissing : Bool)
   | ack (id version : String) (receipt : Int) (reason : String) (allowAcknowledged : Bool)
@@ -75,6 +101,11 @@ def step (H : Hash) (now : Int) (s : Store) : Op → Store × Code
     match lookup p.id s with
     | some _ => (s, .alreadyExists)
     | none => (set p.id (computed H now p) s, .ok)
+  | .createGen p g =>
+    -- `GenerateUniqueId` only returns a non-empty id that does not exist; the id callback writes it into
+    -- the publication before it is stored
+    if g = "" ∨ (lookup g s).isSome then (s, .aborted)
+    else (set g (computed H now { p with id := g }) s, .ok)
   | .update p mask version =>
     if p.id = "" then (s, .invalidArgument)
     else match lookup p.id s with
@@ -84,8 +115,9 @@ def step (H : Hash) (now : Int) (s : Store) : Op → Store × Code
         else
           let merged := match mask with
             | .none => p
-            | .fields b m => { cur with body := if b then p.body else cur.body,
-                                        mediaType := if m then p.mediaType else cur.mediaType }
+            | .fields b m a => { cur with body := if b then p.body else cur.body,
+                                          mediaType := if m then p.mediaType else cur.mediaType,
+                                          audience := mergeAudience a cur.audience p.audience }
           (set p.id (computed H now merged) s, .ok)
   | .delete id version allowMissing =>
     if id = "" then (s, .invalidArgument)
